@@ -232,7 +232,12 @@ impl<R: Read + Seek> Mp4Reader<R> {
     }
 
     pub fn duration(&self) -> Duration {
-        Duration::from_millis(self.moov.mvhd.duration * 1000 / self.moov.mvhd.timescale as u64)
+        let timescale = u128::from(self.moov.mvhd.timescale);
+        if timescale == 0 {
+            return Duration::from_millis(0);
+        }
+        let millis = u128::from(self.moov.mvhd.duration) * 1000 / timescale;
+        Duration::from_millis(millis.min(u128::from(u64::MAX)) as u64)
     }
 
     pub fn timescale(&self) -> u32 {
